@@ -25,6 +25,7 @@ func init() {
 	register(&Scenario{Prop: "C17", Name: "gate-expiry-conc", Run: runGateExpiryConc})
 	register(&Scenario{Prop: "C17", Name: "gate-flush-conc", Run: runGateFlushConc})
 	register(&Scenario{Prop: "C17", Name: "gate-backlog", Run: runGateBacklog})
+	register(&Scenario{Prop: "C11", Name: "gate-backlog-flush", Run: runGateBacklogFlush})
 	register(&Scenario{Prop: "C11", Name: "gate-enum", Run: func(rc *RunCtx) { runGateEnum(rc, "C11") }})
 	register(&Scenario{Prop: "C17", Name: "gate-enum", Run: func(rc *RunCtx) { runGateEnum(rc, "C17") }})
 }
@@ -206,7 +207,9 @@ func runGateSeqOps(rc *RunCtx, prop string, fixed []gateOp, fixedBroker bool) {
 	sim := rc.Sim
 	h := &gateHarness{now: time.Date(2026, 5, 1, 0, 0, 0, 0, time.UTC), composeFail: map[int]bool{}, composeGate: map[int]bool{}, sendFail: map[int]bool{}}
 	rc.Final = append(rc.Final, func() { h.checkKept(rc) })
-	E := []time.Duration{100, 1000, 10 * time.Second, 100, time.Duration(math.MaxInt64)}[tp.Choose(5, "expiration")] // the last one: "never expire"
+	// (the last but one: "never expire"; the last: negative = a group has expired the moment it is opened,
+	// the next Gateable event sends it on its way)
+	E := []time.Duration{100, 1000, 10 * time.Second, 100, time.Duration(math.MaxInt64), -50}[tp.Choose(6, "expiration")]
 	hasBroker := tp.Choose(4, "broker") != 0
 	if fixed != nil {
 		hasBroker = fixedBroker
@@ -306,7 +309,7 @@ func runGateSeqOps(rc *RunCtx, prop string, fixed []gateOp, fixedBroker bool) {
 			if !probe && fixed == nil && tp.Choose(10, "set-expiration") == 0 {
 				// the exported Expiration is changed on the live filter: groups opened
 				// from now on expire earlier / later than the ones already open
-				op = gateOp{Kind: "set-expiration", D: []int64{int64(E) / 10, int64(E) * 10, int64(E) / 3}[tp.Choose(3, "newexp")]}
+				op = gateOp{Kind: "set-expiration", D: []int64{int64(E) / 10, int64(E) * 10, int64(E) / 3, -int64(time.Second)}[tp.Choose(4, "newexp")]}
 			}
 			if !probe && fixed == nil && tp.Choose(12, "reopen") == 0 {
 				// Reopen (the Broker calls it on every node of every pipeline) must leave the gate as it is
@@ -1564,6 +1567,70 @@ func (s *countSender) Send(ctx context.Context, t el.EventType, payload interfac
 		s.got = append(s.got, nil)
 	}
 	return el.Status{}, nil
+}
+
+// runGateBacklogFlush (C11): many groups are open when FlushAll / Close is called on a filter with a
+// Broker: every accepted event is handed to composition exactly once, oldest group first, however many
+// groups there are.
+func runGateBacklogFlush(rc *RunCtx) {
+	sim := rc.Sim
+	idx := rc.EnumIndex
+	if idx >= 16 {
+		runGateSeq(rc, "C11")
+		return
+	}
+	sim.MaxSteps = 400000
+	now := time.Date(2026, 5, 1, 0, 0, 0, 0, time.UTC)
+	N := []int{3, 700, 1100, 2600}[idx%4]
+	viaClose := (idx/4)%2 == 0
+	perGroup := 1 + int(idx/8)%2
+	snd := &countSender{}
+	gf := &gated.Filter{Expiration: time.Hour, NowFunc: func() time.Time { return now }, Broker: snd}
+	simrt.Probe("gate.backlog-flush-run")
+	done := false
+	sim.Spawn("backlog-flush", func() {
+		defer func() { done = true }()
+		ctx := context.Background()
+		n := 0
+		for g := 0; g < N; g++ {
+			for k := 0; k < perGroup; k++ {
+				n++
+				if out, err := gf.Process(ctx, &el.Event{Type: "t", Payload: &lightPayload{ID: fmt.Sprintf("g%d", g), N: n}}); out != nil || err != nil {
+					rc.Failf("C11.spurious-error", "backlog", "opening group %d: (%v, %v)", g, out, err)
+					return
+				}
+			}
+			now = now.Add(time.Microsecond)
+		}
+		var err error
+		what := "FlushAll"
+		if viaClose {
+			what = "Close"
+			err = gf.Close(ctx)
+		} else {
+			err = gf.FlushAll(ctx)
+		}
+		if err != nil {
+			rc.Failf("C11.spurious-error", "backlog", "%s returned %v without any fault", what, err)
+			return
+		}
+		if len(snd.got) != N {
+			rc.Failf("C11.lost", "backlog", "%d groups (%d accepted events) were open when %s was called on a filter with a Broker; it returned nil after sending %d composites: the events of the other groups were never handed to composition", N, n, what, len(snd.got))
+			return
+		}
+		for g := 0; g < N; g++ {
+			if len(snd.got[g]) != perGroup || snd.got[g][0] != g*perGroup+1 {
+				rc.Failf("C11.compose-args", "backlog", "composite #%d holds %v, expected the %d event(s) of group g%d", g, snd.got[g], perGroup, g)
+				return
+			}
+		}
+	})
+	sim.Run(nil)
+	rc.NonTrivial = N > 100
+	rc.Desc = map[string]interface{}{"groups": N, "events_per_group": perGroup, "via_close": viaClose}
+	if !done && len(rc.Viol) == 0 && len(sim.Panics) == 0 {
+		rc.Failf("C11.stuck", stuckClass(sim), "backlog flush did not finish: %s", strings.Join(sim.StuckInfo, "; "))
+	}
 }
 
 func runGateBacklog(rc *RunCtx) {
